@@ -304,6 +304,27 @@ def k_tick_replay(tick0):
     return ok()
 
 
+def float_timeout(t10, idle10):
+    """The embedding API takes the timeout as given (Proxy(timeout=1.9), FlagParser.initialize(timeout=...)): a connection idle for
+    idle10/10 s is reaped iff idle10/10 > t10/10. Concrete execution with a fractional clock (NOT a solver claim: the symbolic
+    obligations use an integer clock)."""
+    begin()
+    env = envkit.new_env()
+    env.clock = 1000.0
+    fl = FlagParser.initialize(['--threadless'], timeout=t10 / 10)
+    xk = envkit.Executor(fl, env)
+    cs = xk.accept('client')
+    cs.inq.append(b'CONNECT h.example:443 HTTP/1.1\r\n\r\n')
+    xk.step()
+    xk.step()
+    env.clock = 1000.0 + idle10 / 10
+    xk.ex._cleanup_inactive()
+    want = idle10 > t10
+    if (cs.fd not in xk.ex.works) != want:
+        return fail('connection idle for %.1fs with timeout %.1fs: reaped=%s' % (idle10 / 10, t10 / 10, cs.fd not in xk.ex.works))
+    return ok()
+
+
 def reaper_fires(pattern):
     """Real _run_forever + real _run_once on an executor holding one idle tunnel; per iteration the selector reports
     client data (busy) or nothing (idle) according to `pattern` (0 all idle, 1 all busy, 2 alternating, 3 busy bursts).
@@ -366,6 +387,8 @@ def obligations(tier):
     for pend in ([0, 0], [1, 0], [0, 1], [1, 1]):
         obs.append({'name': 'reaper.pending%d%d' % tuple(pend), 'fn': 'reaper', 'cfg': {'pending': pend}, 'timeout': 300})
     obs.append({'name': 'threaded.run', 'fn': 'threaded', 'cfg': {}, 'timeout': 300})
+    obs.append({'name': 'concrete.float_timeout', 'kind': 'concrete', 'fn': 'float_timeout', 'cfg': {}, 'group': 'concrete',
+                'args_list': [[19, 13], [19, 20], [19, 19], [5, 3], [5, 6], [100, 99], [100, 101], [25, 24], [25, 26]], 'timeout': 60})
     obs.append({'name': 'concrete.reaper_fires', 'kind': 'concrete', 'fn': 'reaper_fires', 'cfg': {}, 'group': 'concrete',
                 'args_list': [[0], [1], [2], [3]], 'timeout': 120})
     obs.append({'name': 'kernel.tick', 'kind': 'smt', 'fn': 'k_tick', 'replay_fn': 'k_tick_replay', 'cfg': {}, 'timeout': 60, 'group': 'k_tick'})
